@@ -1,6 +1,7 @@
 """C12 — piece length acceptance and automatic choice: exhaustive integer ranges
 and structured families, through the library, the CLI and the config file."""
 import os
+import shutil
 
 from mc import core, tf, world
 from mc.ref import bencode
@@ -41,6 +42,46 @@ def string_spec(s):
             return sp
         return ("either", sp[1])
     return ("reject",)
+
+
+AUTO_FORMS = ["file", "dir1", "dir3", "link-file", "dir-with-link",
+              "link-dir", "nested", "file@cli", "dir-with-link@cli"]
+
+
+def _sparse(path, n):
+    os.makedirs(os.path.dirname(path), exist_ok=True)
+    with open(path, "wb") as f:
+        if n:
+            f.seek(n - 1)
+            f.write(b"\x01")
+
+
+def auto_payload(parent, form, s):
+    """A payload of exactly s bytes in the given on-disk form."""
+    form = form.split("@")[0]
+    p = os.path.join(parent, "big")
+    store = os.path.join(parent, "store")
+    if form == "file":
+        _sparse(p, s)
+    elif form == "dir1":
+        _sparse(os.path.join(p, "a"), s)
+    elif form == "dir3":
+        _sparse(os.path.join(p, "a"), s // 2)
+        _sparse(os.path.join(p, "d", "b"), s - s // 2 - 1)
+        _sparse(os.path.join(p, "c"), 1)
+    elif form == "nested":
+        _sparse(os.path.join(p, "x", "y", "z", "a"), s)
+    elif form == "link-file":
+        _sparse(os.path.join(store, "real"), s)
+        os.symlink(os.path.join(store, "real"), p)
+    elif form == "dir-with-link":
+        _sparse(os.path.join(store, "real"), s - 1)
+        _sparse(os.path.join(p, "c"), 1)
+        os.symlink(os.path.join(store, "real"), os.path.join(p, "a"))
+    elif form == "link-dir":
+        _sparse(os.path.join(store, "realdir", "a"), s)
+        os.symlink(os.path.join(store, "realdir"), p)
+    return p
 
 
 class PieceLenCheck:
@@ -89,7 +130,9 @@ class PieceLenCheck:
         for lo in range(0, top2, step2):
             gs.append({"kind": "auto-ints", "lo": lo, "hi": lo + step2 + 1})
         gs.append({"kind": "auto-fam"})
-        gs.append({"kind": "auto-e2e", "seed": seed})
+        for creator in ("TorrentFile", "Assembler2", "Assembler3"):
+            gs.append({"kind": "auto-e2e", "seed": seed, "tier": tier,
+                       "creator": creator})
         return gs
 
     # --- validator
@@ -252,32 +295,59 @@ class PieceLenCheck:
                 prev = max(prev, r)
             return res
         if kind == "auto-e2e":
+            # the payload in several on-disk forms; the choice is a function
+            # of the payload's size alone, so it must be monotone over the
+            # union of all forms (a form that is under-counted shows up as a
+            # decrease against a smaller payload in another form)
             sizes = [0, 1, 16384000 - 1, 16384000, 16384001, 32768000,
                      32768001]
-            prev = 0
+            if g.get("tier") == "thorough":
+                sizes += [65536000, 65536001]
+            creator = g.get("creator", "TorrentFile")
+            seen = []     # (size, form, pl)
             for s in sizes:
-                parent = world.fresh_dir()
-                p = os.path.join(parent, "big")
-                with open(p, "wb") as f:
-                    if s:
-                        f.seek(s - 1)
-                        f.write(b"\x01")
-                tf.reset_process_state()
-                raw = tf.create("TorrentFile", p,
-                                os.path.join(parent, "o.torrent"), None)
-                pl = bencode.decode(raw, strict=False)[b"info"][b"piece length"]
-                res.states += 1
-                res.evals += 1
-                res.transitions += 1
-                res.validated += 1
-                if not (MIN <= pl <= 1 << 24 and pl & (pl - 1) == 0) \
-                        or pl < prev:
-                    res.violation("C12|auto-e2e|bad-choice",
-                                  {"kind": "auto-e2e", "size": s},
-                                  {"got": pl, "prev": prev})
-                else:
-                    res.outcomes["ok"] += 1
-                prev = pl
+                for form in AUTO_FORMS:
+                    if s == 0 and form != "file":
+                        continue
+                    parent = world.fresh_dir()
+                    try:
+                        p = auto_payload(parent, form, s)
+                    except OSError:
+                        continue
+                    tf.reset_process_state()
+                    out = os.path.join(parent, "o.torrent")
+                    try:
+                        if form.endswith("@cli"):
+                            ver = {"TorrentFile": "1", "Assembler2": "2",
+                                   "Assembler3": "3"}[creator]
+                            tf.execute(["create", p, "-o", out, "--prog", "0",
+                                        "--meta-version", ver])
+                            with open(out, "rb") as f:
+                                raw = f.read()
+                        else:
+                            raw = tf.create(creator, p, out, None)
+                        pl = bencode.decode(raw, strict=False)[b"info"][
+                            b"piece length"]
+                    except Exception as e:  # noqa
+                        pl = "raised:" + type(e).__name__
+                    shutil.rmtree(parent, ignore_errors=True)
+                    res.states += 1
+                    res.evals += 1
+                    res.transitions += 1
+                    res.validated += 1
+                    ok = isinstance(pl, int) and MIN <= pl <= 1 << 24 and \
+                        pl & (pl - 1) == 0
+                    lower = [x for x in seen if x[0] <= s and ok and
+                             isinstance(x[2], int) and x[2] > pl]
+                    if not ok or lower:
+                        res.violation(
+                            "C12|auto-e2e|bad-choice|" + form.split("@")[0],
+                            {"kind": "auto-e2e", "size": s, "form": form,
+                             "creator": creator},
+                            {"got": pl, "smaller-payload-got-more": lower[:2]})
+                    else:
+                        res.outcomes["ok"] += 1
+                    seen.append((s, form, pl))
             return res
         raise ValueError(kind)
 
@@ -374,6 +444,16 @@ class PieceLenCheck:
             return [{"sig": v["sig"], "detail": v["detail"]}
                     for v in res.violations]
         res = core.Result()
+        if case["kind"] == "auto-e2e":
+            res = self.run_group({"kind": "auto-e2e", "seed": 0,
+                                  "tier": "thorough" if case["size"] > 4e7
+                                  else "quick",
+                                  "creator": case.get("creator",
+                                                      "TorrentFile")})
+            return [{"sig": v["sig"], "detail": v["detail"]}
+                    for v in res.violations
+                    if v["case"]["size"] == case["size"]
+                    and v["case"]["form"] == case["form"]]
         if case["kind"] == "auto":
             r = tf.utils.get_piece_length(case["size"])
             if not (MIN <= r <= 1 << 24 and r & (r - 1) == 0):
